@@ -47,6 +47,9 @@ def check(repo, res, tier):
     res.rule('C02.P6', 'adopted C09.R4: a machine finishing work for a reserved observation returns to that reservation '
                        '(else the reservation outlives the run: "no reservation outstanding at the end")')
     borrow(repo, res, tier, c09, {'C09.R4'}, 'C02.P6')
+    from .c10 import check_shared_state
+    check_shared_state(repo, res, 'C02.P7', 'pools or counters are shared between Cluster objects: the reported numbers are not '
+                       'those of this cluster')
 
 
 # ------------------------------------------------------------------------ P5
